@@ -61,10 +61,10 @@ type Policy struct {
 	PCTSpan    int     `json:"pct_span,omitempty"`
 	// StarvePrefix / StarveSteps: tasks whose id has the prefix are not
 	// scheduled for StarveSteps steps starting at StarveFrom (a stalled party).
-	StarvePrefix string `json:"starve_prefix,omitempty"`
-	StarveFrom   int64  `json:"starve_from,omitempty"`
-	StarveSteps  int64  `json:"starve_steps,omitempty"`
-	PermuteMaps  bool   `json:"permute_maps,omitempty"`
+	StarvePrefix string  `json:"starve_prefix,omitempty"`
+	StarveFrom   int64   `json:"starve_from,omitempty"`
+	StarveSteps  int64   `json:"starve_steps,omitempty"`
+	PermuteMaps  bool    `json:"permute_maps,omitempty"`
 	PreemptProb  float64 `json:"preempt_prob,omitempty"`
 }
 
@@ -103,28 +103,28 @@ type PanicInfo struct {
 
 // Sim is one simulation.
 type Sim struct {
-	mu      sync.Mutex // guards everything below; held for O(1) only
-	cfg     Config
-	rng     *RNG // scheduler decisions
-	tasks   []*Task
-	byGoid  map[uint64]*Task
-	cur     *Task
-	notify  chan struct{}
-	step    int64
-	start   time.Time
-	stats   Stats
-	hash    uint64
-	trace   []string
-	panics  []PanicInfo
-	rootGID uint64
-	dead    atomic.Bool
-	nroot   int
-	pctChange map[int64]bool
-	condQ   map[*sync.Cond][]*Task
-	lastSite string
-	lastTask string
+	mu           sync.Mutex // guards everything below; held for O(1) only
+	cfg          Config
+	rng          *RNG // scheduler decisions
+	tasks        []*Task
+	byGoid       map[uint64]*Task
+	cur          *Task
+	notify       chan struct{}
+	step         int64
+	start        time.Time
+	stats        Stats
+	hash         uint64
+	trace        []string
+	panics       []PanicInfo
+	rootGID      uint64
+	dead         atomic.Bool
+	nroot        int
+	pctChange    map[int64]bool
+	condQ        map[*sync.Cond][]*Task
+	lastSite     string
+	lastTask     string
 	stepLimitHit bool
-	pendingNew int // tasks created but goroutine not yet bound
+	pendingNew   int // tasks created but goroutine not yet bound
 }
 
 var current atomic.Pointer[Sim]
